@@ -1,5 +1,5 @@
 /*VERIF
-{ "tu": "src/once.c", "enforce": "_dispatch_once", "props": ["C09"], "seq": true, "timeout": 120,
+{ "tu": "src/once.c", "enforce": "_dispatch_once", "props": ["C09", "C05"], "seq": true, "timeout": 120,
   "stub_note": "dispatch_once (block variant) stubbed by its proved post-state (returns only after the predicate is DONE)" }
 VERIF*/
 #ifdef VERIF_PRE
